@@ -125,6 +125,11 @@ def k2(ctx, res):
             if isinstance(tg, ast.Name):
                 sname = tg.id
     if sname is None:
+        # built by an accumulate-loop (possibly in an extracted helper, flattened by the normaliser)
+        for b_ in builders(view(ser0, ctx.prog).body):
+            if b_.kind == "dict" and b_.name and has("inspect.signature(Element.__init__)", b_.iter):
+                sname = b_.name
+    if sname is None:
         raise AnalysisError("_serialize_element: the keyword dict built from inspect.signature(Element.__init__) was not found")
     ser = view(ser0, ctx.prog, keep=(sname,))
     base_kw = set(kwonly(ctx.func("Element.__init__")))
@@ -137,8 +142,12 @@ def k2(ctx, res):
                         and t.slice.value in base_kw:
                     n += 1
                     k = t.slice.value
+                    from .norm import text_resolver, _subst_expr
+                    R_ = text_resolver(ser.body, keep=(sname,))
+                    rtxt = R_(node.value)
                     reads_old = has(f"{sname}[{k!r}]", node.value) or has(f"{sname}.get({k!r}, MV__)", node.value) \
-                        or has(f"{sname}.get({k!r})", node.value) or has(f"{sname}.pop({k!r}, MV__)", node.value)
+                        or has(f"{sname}.get({k!r})", node.value) or has(f"{sname}.pop({k!r}, MV__)", node.value) \
+                        or f"{sname}[{k!r}]" in rtxt or f"{sname}.get({k!r}" in rtxt
                     res.check(reads_old, ser, f"schema[{k!r}] = ...", detail={"value": norm(node.value)[:120]},
                               reason=f"a later store to keyword `{k}` must be computed from the value already read from "
                                      "the element (otherwise the element's own value is lost)")
@@ -191,6 +200,14 @@ def k2(ctx, res):
             want = {f"{pn}.kind == {pn}.KEYWORD_ONLY", f"getattr({el}, {pn}.name, {pn}.default) != {pn}.default"}
             ok = {norm(c) for c in conds} == want and norm(n2.key) == f"{pn}.name" and \
                 norm(n2.value) == f"getattr({el}, {pn}.name, {pn}.default)"
+    if not ok:
+        for b_ in builders(ser.body):
+            if b_.kind == "dict" and has("inspect.signature(Element.__init__).parameters.values()", b_.iter) and isinstance(b_.target, ast.Name):
+                pn = b_.target.id
+                el = ser0.params[0].name
+                want = sorted([f"{pn}.kind == {pn}.KEYWORD_ONLY", f"getattr({el}, {pn}.name, {pn}.default) != {pn}.default"])
+                ok = sorted(b_.guard_texts()) == want and b_.key is not None and norm(b_.key) == f"{pn}.name" \
+                    and norm(b_.elt) == f"getattr({el}, {pn}.name, {pn}.default)"
     res.check(ok, ser, "{p.name: getattr(element, p.name, p.default) for keyword-only p if value != p.default}",
               reason="every keyword whose value differs from the constructor default is read (equality, not truthiness)")
 
